@@ -32,6 +32,11 @@ def generate(tier, seed):
     n = 300 if tier == "quick" else 20000
     for i in range(n):
         cases.append({"kind": "built", "d": DIST[i % len(DIST)], "seed": "%d:b:%d" % (seed, i), "cost": 50})
+    # a cluster of free amino acids tuned to a near-tie of two glutamates: its solver trajectory has a sweep
+    # in which nothing moves by more than 0.003 between two sweeps with large moves (vp/data/near_tie_cluster.pdb,
+    # taken from the demonstration of seeded change C05-j); next to parts that need more / fewer sweeps
+    for i, other in enumerate(("3SGB.pdb", "1FTJ-Chain-A.pdb", "capped-cluster", "1HPX.pdb")[:(2 if tier == "quick" else 4)]):
+        cases.append({"kind": "near-tie", "other": other, "d": (40.0, 70.0, 300.0, 1100.0)[i], "seed": "%d:nt:%d" % (seed, i), "cost": 300})
     return cases
 
 
@@ -119,6 +124,49 @@ def relabel_chains(b, used, rng):
     return out
 
 
+_ITER_REG = []
+
+
+def _register_iteratives():
+    """Record every propka.iterative.Iterative object created from now on (their pka_iter lists hold
+    the full-precision trajectory of the solver; the DEBUG table prints two decimals only)."""
+    import propka.iterative as pi
+    if getattr(pi.Iterative.__init__, "_vp", False):
+        return
+    orig = pi.Iterative.__init__
+
+    def init(self, *a, **k):
+        orig(self, *a, **k)
+        _ITER_REG.append(self)
+    init._vp = True
+    pi.Iterative.__init__ = init
+
+
+def part_with_small_last_step(rng, tries=150):
+    """A residue cluster or cut-out whose solver trajectory ends with a sweep in which every group moves
+    by less than 0.005 (but some group moves): a looser convergence test would stop one sweep earlier
+    when the part is alone, and not when a distant part keeps the loop going."""
+    from .. import obs, pdbio, sources
+    _register_iteratives()
+    for _ in range(tries):
+        recs = sources.residue_cluster(rng)[0] if rng.random() < 0.6 else sources.random_small_structure(rng, 80, 500)
+        del _ITER_REG[:]
+        r = obs.run_single(pdbio.dump(recs), write_pka=False)
+        if r.exc or not _ITER_REG:
+            continue
+        n = max(len(it.pka_iter) for it in _ITER_REG)
+        last = None
+        for i in range(1, n):
+            step = max(abs(it.pka_iter[i] - it.pka_iter[i - 1]) for it in _ITER_REG if len(it.pka_iter) > i)
+            if step > 0:
+                last = step
+        if last is not None and last < 0.005:
+            del _ITER_REG[:]
+            return recs
+    del _ITER_REG[:]
+    return None
+
+
 def run_case(case, tier):
     import math
     from .. import obs, pdbio, sources, util
@@ -127,6 +175,23 @@ def run_case(case, tier):
     if case["kind"] == "files":
         a = sources.full_protein(case["a"])
         b = sources.full_protein(case["b"])
+    elif case["kind"] == "near-tie":
+        import os
+        a = pdbio.parse(open(os.path.join(os.path.dirname(os.path.dirname(os.path.abspath(__file__))), "data", "near_tie_cluster.pdb")).read())
+        a = [r for r in a if r.raw is None]
+        if case["other"] == "capped-cluster":
+            b = None
+            for _ in range(60):
+                cl, cd = sources.residue_cluster(rng)
+                probe = obs.run_single(pdbio.dump(cl), write_pka=False, debug_iterative=True)
+                if not probe.exc and any("did not converge" in m for (_, _, m) in probe.logs or []):
+                    b = cl
+                    break
+            if b is None:
+                b = sources.full_protein("3SGB.pdb")
+        else:
+            b = sources.full_protein(case["other"])
+        classes.append("near-tie-cluster")
     else:
         def part():
             u = rng.random()
@@ -156,6 +221,20 @@ def run_case(case, tier):
                 else:
                     a = big
                 classes.append("capped-part-with-whole-protein")
+        if rng.random() < 0.1:
+            # a part whose last moving sweep is a tiny one, next to a part that needs more sweeps
+            small = part_with_small_last_step(rng)
+            if small is not None:
+                a = small
+                for _ in range(40):
+                    cl, cd = sources.residue_cluster(rng)
+                    probe = obs.run_single(pdbio.dump(cl), write_pka=False, debug_iterative=True)
+                    if not probe.exc and any("did not converge" in m for (_, _, m) in probe.logs or []):
+                        b = cl
+                        break
+                else:
+                    b = sources.full_protein(rng.choice(("1FTJ-Chain-A.pdb", "3SGB.pdb")))
+                classes.append("part-with-tiny-last-sweep")
         if rng.random() < 0.25:
             # an incomplete residue in one part: a carboxylate without its oxygens, an amide without N ...
             tgt = a if rng.random() < 0.5 else b
@@ -178,7 +257,7 @@ def run_case(case, tier):
         return util.finish(case, viol, counts, classes, False, {"skipped": "empty part"}, inconclusive="empty part")
     used = {r.chain for r in a if r.raw is None}
     same_ligand = None
-    if case["kind"] != "files" and rng.random() < 0.3:
+    if case["kind"] == "built" and rng.random() < 0.3:
         # the same kind of ligand molecule in both parts (after the chain decision below possibly in
         # the same chain, under another residue number: its groups then carry identical labels)
         from .. import fragments
@@ -189,7 +268,7 @@ def run_case(case, tier):
             if frag:
                 tgt.extend(frag)
         classes.append("same-ligand-in-both-parts")
-    if case["kind"] != "files" and rng.random() < 0.3:
+    if case["kind"] == "built" and rng.random() < 0.3:
         # B keeps chain identifiers that A uses too; its residues get numbers A does not use
         ach = sorted(used)
         m = {}
@@ -221,10 +300,40 @@ def run_case(case, tier):
     if m2 < 25000 ** 2 + 1:
         return util.finish(case, viol, counts, classes, False, desc, inconclusive="placement failed")
     ter = [pdbio.raw("TER")]
+    if case["kind"] == "built" and rng.random() < 0.3:
+        # number coincidence across the junction: the first residue of one part gets the number of the last
+        # residue of the other (different chains; with no TER between them only the chain tells them apart)
+        ats_a = [r for r in a if r.raw is None and r.tag == "ATOM  "]
+        ats_b = [r for r in b if r.raw is None and r.tag == "ATOM  "]
+        if ats_a and ats_b:
+            off = (ats_a[-1].resnum - ats_b[0].resnum) if rng.random() < 0.5 else (ats_a[0].resnum - ats_b[-1].resnum)
+            nums = [r.resnum + off for r in b if r.raw is None]
+            if nums and min(nums) >= -999 and max(nums) <= 9999:
+                nb = []
+                for r in b:
+                    if r.raw is None:
+                        r = r.copy()
+                        r.resnum += off
+                    nb.append(r)
+                if sources.identities_unique(a + ter + nb):
+                    b = nb
+                    classes.append("junction-number-coincidence")
     ta, tb = pdbio.dump(a), pdbio.dump(b)
-    tab, tba = pdbio.dump(a + ter + b), pdbio.dump(b + ter + a)
+
+    def ends_with_terminal_oxygen(part):
+        at = [r for r in part if r.raw is None]
+        if not at or at[-1].tag != "ATOM  ":
+            return False
+        lastres = (at[-1].chain, at[-1].resnum, at[-1].icode)
+        return any((r.chain, r.resnum, r.icode) == lastres and r.aname() in ("OXT", "O''") for r in at)
+    # a chain that ends with a terminal oxygen needs no TER record after it: the next part still starts a chain
+    sep_ab = [] if (ends_with_terminal_oxygen(a) and rng.random() < 0.5) else ter
+    sep_ba = [] if (ends_with_terminal_oxygen(b) and rng.random() < 0.5) else ter
+    if not sep_ab or not sep_ba:
+        classes.append("parts-joined-without-ter")
+    tab, tba = pdbio.dump(a + sep_ab + b), pdbio.dump(b + sep_ba + a)
     xo = util.neutral_options(rng, families=("grid", "protonation", "keep", "swap-display"), classes=classes)
-    if case["kind"] != "files" and rng.random() < 0.25:
+    if case["kind"] == "built" and rng.random() < 0.25:
         ov = {"common_charge_centre": rng.choice((1, 1, 0)), "shared_determinants": rng.choice((0, 1)),
               "remove_penalised_group": rng.choice((0, 1))}
         xo = xo + ["-p", util.write_cfg(ov)]
